@@ -250,6 +250,10 @@ type cfg struct {
 	// that bounds the call, not the join): the join result stays open and keeps following its bases
 	CancelCallCtx bool
 	DstHist       []ev
+	// StopSrc: after the histories the source gets one more change and shuts down at once (the change may still be
+	// queued for the join when the source's cache stops): the join result belongs to the destination's tree and
+	// stays open
+	StopSrc bool
 	// Bufsiz > 0: model value of EventBufsiz; the destination history then runs first, one event at a time, and the
 	// source history after it as one burst (events of the burst are dropped on the way to the join's monitor; the
 	// join must still end at the selection of the final sources)
@@ -277,6 +281,7 @@ type inst struct {
 	finished           bool
 	srcFinal, dstFinal string
 	doneClosed         []bool
+	doneAfterSrcStop   []bool
 }
 
 func (in *inst) next() string { in.rv++; return fmt.Sprint(in.rv) }
@@ -499,6 +504,16 @@ func (in *inst) run() {
 			}
 		}
 		in.wants = append(in.wants, hx.ListString(want))
+		if c.StopSrc {
+			for _, e := range c.SrcInit[:1] {
+				e.typ = kcache.EventTypeUpdate
+				applySrc(e, true)
+				applySrc(e, true)
+			}
+			src.Stop()
+			vs.SleepIdle(time.Duration(1))
+			in.doneAfterSrcStop = append(in.doneAfterSrcStop, hx.IsClosed(h.done()))
+		}
 		// close the join result: everything it created must go away, the bases stay
 		h.close()
 		vs.SleepIdle(time.Duration(1))
@@ -566,10 +581,24 @@ func (in *inst) check(r *vs.Result) []string {
 		if in.lists[i] != in.wants[i] {
 			msgs = append(msgs, fmt.Sprintf("%s join cache differs from the selection | %s: cycle %d join cache %s, destination objects selected by current sources %s (sources %s, destinations %s)", name, desc, i, in.lists[i], in.wants[i], in.srcFinal, in.dstFinal))
 		}
+		if i < len(in.doneAfterSrcStop) && in.doneAfterSrcStop[i] {
+			msgs = append(msgs, fmt.Sprintf("%s join closed by its source | %s: the source controller shut down (with a change still on its way to the join) and the join result's Done() closed: it lives in the destination's tree", name, desc))
+		}
 		if !in.doneClosed[i] {
 			msgs = append(msgs, fmt.Sprintf("%s join result not done after Close | %s: cycle %d", name, desc, i))
 		}
-		if d := diff(in.census0, in.censusN[i]); len(d) > 0 {
+		d := diff(in.census0, in.censusN[i])
+		if in.c.StopSrc {
+			// the source itself went away in this scenario: only what is left over counts
+			var left []string
+			for _, x := range d {
+				if !strings.Contains(x, " -") {
+					left = append(left, x)
+				}
+			}
+			d = left
+		}
+		if len(d) > 0 {
 			msgs = append(msgs, fmt.Sprintf("%s closing the join result leaves goroutines behind | %s: cycle %d, goroutines alive compared with before the join was created: %v", name, desc, i, d))
 		}
 	}
@@ -728,6 +757,8 @@ func Property() runner.Property {
 						dsts = append(dsts, ev{C, "ns", "zz1", "l=none"}, ev{C, "other", "zz2", "l=1"})
 						return scenario(cfg{Kind: ki, Name: "seventy-sources", SrcInit: srcs[:60], SrcHist: srcs[60:], DstHist: dsts, Sequenced: true, Cycles: 1, Mode: "D0"})
 					}(),
+					// the source shuts down with a change still on its way to the join
+					scenario(cfg{Kind: ki, Name: "source-shuts-down-with-a-change-in-flight", SrcInit: []ev{{C, "ns", "w1", sel1}}, DstHist: dst, StopSrc: true, Cycles: 1, Mode: "S2", Bound: d}),
 					// a burst of source changes larger than the (model) event buffers: whatever is dropped on the way to the
 					// join, it ends at the selection of the final sources
 					scenario(cfg{Kind: ki, Name: "source-burst-overflows-the-buffers", Bufsiz: 2, SrcInit: []ev{{C, "ns", "w1", sel1}}, SrcHist: []ev{{U, "ns", "w1", sel2}, {C, "ns", "w2", sel1}, {U, "ns", "w1", sel1}, {D, "ns", "w2", sel1}, {U, "ns", "w1", sel2}}, DstHist: dst, Cycles: 1, Mode: "S2", Bound: d}),
